@@ -242,6 +242,7 @@ pub struct Stats {
     pub futures_destroyed_after_completion: u32,
     /// despawn_threads_if_overloaded ran while callers were scheduling work
     pub concurrent_despawns: u32,
+    pub concurrent_raises: u32,
     /// one task awaited two futures with one waker
     pub joins: u32,
     /// an input stream woke its last waker from its destructor
